@@ -27,7 +27,7 @@ PLAN = {
         'units': ['fixed_pkv_common', 'fixed_reph', 'fixed_session', 'layout', 'layout_get', 'rank', 'util', 'phon', 'pmeth', 'data', 'split'],
         'technique': 'Verus built-in safety obligations (unwrap/index/slice/overflow/termination) on extracted real functions under data-structure invariants',
         'claim': 'Every extracted riti function (both methods, Rank/Suggestion, layout, utility) is proved free of panics, failed unwraps, out-of-bounds or off-boundary slices, arithmetic overflow and non-termination for ALL inputs satisfying the stated invariants (ASCII buffer, memo transparency, in-range commit index), and every API operation is proved to re-establish those invariants; keys without a character are ignored; a memo entry is proved to hold the direct hits of its word only, so the suffix pass multiplies lists whose size does not depend on the history.',
-        'note': COMMON_TRUST + 'Not decided: panics inside okkhor/regex/poriborton/emojicon, sort panic-freedom for non-total comparators, RefCell double borrow, time complexity beyond termination; T2 functions (internal_backspace_step, search_dictionary, include_from_dictionary) only have assumed contracts here; SplittedString::split is proved in unit split (std/UTF-8 facts about str::find with a closure, char_indices, split_at offsets are T3 axioms listed in the trusted base).',
+        'note': COMMON_TRUST + 'Not decided: panics inside okkhor/regex/poriborton/emojicon, sort panic-freedom for non-total comparators, RefCell double borrow, time complexity beyond termination; T2 functions (search_dictionary, include_from_dictionary) only have assumed contracts here; internal_backspace_step is proved in unit fixed_reph (std contracts for Take::fold, String::len / truncate in byte offsets are T3); SplittedString::split is proved in unit split (std/UTF-8 facts about str::find with a closure, char_indices, split_at offsets are T3 axioms listed in the trusted base).',
     },
     'C02': {
         'bounded': ['phonetic_api', 'fixed_api'],
@@ -123,7 +123,7 @@ PLAN = {
         'units': ['fixed_reph', 'fixed_pkv_off', 'fixed_pkv_common'],
         'technique': 'Verus loop invariant tying the real right-to-left scan to a recursive scan spec; conservation postcondition; dispatch clauses',
         'claim': 'Proof that insert_old_style_reph turns p into p with reph inserted at exactly one position (nothing else changed, never panics, also for empty p); that the real right-to-left loop computes the scan specification; spec-level induction (lemma_reph_placement) that for every text in which each hasanta follows a consonant the scan position equals the position the statement prescribes (before the final conjunct C(HC)* when the text ends in conjunct [vowel] [chandrabindu], else the end); and that the reph key reaches this function exactly when the option is on (plain append otherwise).',
-        'note': COMMON_TRUST + 'internal_backspace_step (closure fold) is T2 with a bounded conformance check; well-formedness used by the placement clause: every hasanta follows a consonant; joiners are not part of a conjunct (literal reading of the statement).',
+        'note': COMMON_TRUST + 'internal_backspace_step (chars().rev().take(n).fold(closure) + truncate) is proved in the same unit against `drop the last min(n, len) code points` (std contracts for Take::fold with a closure, String::len and String::truncate in UTF-8 byte offsets are T3 axioms; the bounded check backspace_step stays as a cross-check of them); well-formedness used by the placement clause: every hasanta follows a consonant; joiners are not part of a conjunct (literal reading of the statement).',
     },
     'C14': {
         'bounded': ['fixed_rules'],
